@@ -23,7 +23,10 @@ let acc_of (bc : barcode) =
   let d = show_barcode bc in
   String.sub d 0 (String.rindex d ' ')
 
-let () = register "acc" (fun a -> show_outcome acc_of (encode_any a))
+let () = register "acc" (fun a ->
+  match a with
+  | ["pdf"; level; h] -> All_extra.acc_pdf level h
+  | _ -> show_outcome acc_of (encode_any a))
 
 (* specification side of C10: is this input representable in the symbology? (predicates written
    from the standards, independent of the encoder models) *)
